@@ -135,7 +135,7 @@ func init() {
 	register(&workload{
 		name: "atax", accept: params{"x": 256, "y": 256}, timing: fullMatrix, gcn3: true,
 		gen: func(t *rapid.T, nq int, timing bool) params {
-			n := drawSize(t, "n", 1, pick(timing, 320, 64), 256)
+			n := drawSize(t, "n", 1, pick(timing, 600, 96), 256)
 			return params{"x": n, "y": n}
 		},
 		check: func(p params, nq int) string {
@@ -157,7 +157,7 @@ func init() {
 	register(&workload{
 		name: "bicg", accept: params{"x": 256, "y": 256}, timing: fullMatrix, gcn3: true,
 		gen: func(t *rapid.T, nq int, timing bool) params {
-			m := pick(timing, 320, 64)
+			m := pick(timing, 600, 96)
 			return params{"x": drawSize(t, "x", 1, m, 256), "y": drawSize(t, "y", 1, m, 256)}
 		},
 		check: func(p params, nq int) string {
@@ -177,7 +177,7 @@ func init() {
 		name: "fir", accept: params{"length": 8192, "taps": 16}, timing: fullMatrix, gcn3: true,
 		gen: func(t *rapid.T, nq int, timing bool) params {
 			taps := rapid.IntRange(1, pick(timing, 48, 16)).Draw(t, "taps")
-			maxLen := pick(timing, 16384, 8192)
+			maxLen := pick(timing, 32768, 8192)
 			// exactness cap, see check
 			if lim := (1 << 24) / (taps*(taps-1)/2 + 1); lim < maxLen {
 				maxLen = lim
@@ -214,7 +214,7 @@ func init() {
 	register(&workload{
 		name: "aes", accept: params{"length": 16384}, timing: fullMatrix, gcn3: true,
 		gen: func(t *rapid.T, nq int, timing bool) params {
-			blocksPer := drawSize(t, "blocks-per-gpu", 1, pick(timing, 4096, 1024)/nq, 64)
+			blocksPer := drawSize(t, "blocks-per-gpu", 1, pick(timing, 8192, 2048)/nq, 64)
 			return params{"length": 16 * blocksPer * nq}
 		},
 		check: func(p params, nq int) string {
@@ -236,7 +236,7 @@ func init() {
 		name: "kmeans", accept: params{"points": 1024, "features": 32, "clusters": 5, "max-iter": 5},
 		timing: fullMatrix, gcn3: true,
 		gen: func(t *rapid.T, nq int, timing bool) params {
-			per := drawSize(t, "points-per-gpu", 1, pick(timing, 1536, 256)/nq, 64)
+			per := drawSize(t, "points-per-gpu", 1, pick(timing, 4096, 512)/nq, 64)
 			points := per * nq
 			maxC := pick(timing, 8, 4)
 			if points < maxC {
@@ -272,7 +272,7 @@ func init() {
 		timing: fullMatrix, gcn3: true,
 		gen: func(t *rapid.T, nq int, timing bool) params {
 			return params{
-				"node":              rapid.IntRange(1, pick(timing, 160, 48)).Draw(t, "node"),
+				"node":              rapid.IntRange(1, pick(timing, 256, 64)).Draw(t, "node"),
 				"sparsity-permille": rapid.SampledFrom([]int{1, 10, 50, 100, 250, 500, 800, 1000}).Draw(t, "sparsity"),
 				"iterations":        rapid.IntRange(1, 4).Draw(t, "iterations"),
 			}
@@ -293,7 +293,7 @@ func init() {
 	register(&workload{
 		name: "matrixmultiplication", accept: params{"x": 128, "y": 128, "z": 128}, timing: fullMatrix, gcn3: true,
 		gen: func(t *rapid.T, nq int, timing bool) params {
-			m := pick(timing, 160, 96)
+			m := pick(timing, 256, 128)
 			return params{
 				"x": drawMult(t, "x/32", 32, m),
 				"z": drawMult(t, "z/32", 32, m),
@@ -328,7 +328,7 @@ func init() {
 	register(&workload{
 		name: "matrixtranspose", accept: params{"width": 1024}, timing: fullMatrix, gcn3: true,
 		gen: func(t *rapid.T, nq int, timing bool) params {
-			return params{"width": drawMult(t, "width/(64*nq)", 64*nq, pick(timing, 1024, 256))}
+			return params{"width": drawMult(t, "width/(64*nq)", 64*nq, pick(timing, 2048, 512))}
 		},
 		check: func(p params, nq int) string {
 			// amdappsdk/matrixtranspose/matrixtranspose.go:241 wiWidth = Width/4,
@@ -349,7 +349,7 @@ func init() {
 		name: "bitonicsort", accept: params{"length": 4096, "order-asc": 1}, gcn3: true,
 		gen: func(t *rapid.T, nq int, timing bool) params {
 			return params{
-				"length":    1 << rapid.IntRange(map[int]int{1: 1, 2: 2, 4: 3}[nq], 12).Draw(t, "log2-length"),
+				"length":    1 << rapid.IntRange(map[int]int{1: 1, 2: 2, 4: 3}[nq], 13).Draw(t, "log2-length"),
 				"order-asc": rapid.IntRange(0, 1).Draw(t, "order-asc"),
 			}
 		},
@@ -378,7 +378,7 @@ func init() {
 		gen: func(t *rapid.T, nq int, timing bool) params {
 			for {
 				mask := rapid.IntRange(1, pick(timing, 7, 3)).Draw(t, "mask-size")
-				m := pick(timing, 200, 48)
+				m := pick(timing, 320, 80)
 				p := params{
 					"width":     drawSize(t, "width", 1, m, 64),
 					"height":    drawSize(t, "height", 1, m, 64),
@@ -418,7 +418,7 @@ func init() {
 	register(&workload{
 		name: "floydwarshall", accept: params{"node": 16, "iter": 0}, timing: fullMatrix, gcn3: true,
 		gen: func(t *rapid.T, nq int, timing bool) params {
-			n := drawMult(t, "node/8", 8, pick(timing, 96, 32))
+			n := drawMult(t, "node/8", 8, pick(timing, 96, 40))
 			return params{"node": n, "iter": rapid.SampledFrom([]int{0, 0, 1, 2, n / 2, n, n + 3}).Draw(t, "iter")}
 		},
 		check: func(p params, nq int) string {
@@ -448,7 +448,7 @@ func init() {
 		// plain multi-GPU is not a supported configuration of this workload.
 		plainMultiGPU: "exec runs the whole in-place transform once per queue on the same array (fastwalshtransform.go:145)",
 		gen: func(t *rapid.T, nq int, timing bool) params {
-			return params{"length": 1 << rapid.IntRange(1, 14).Draw(t, "log2-length")}
+			return params{"length": 1 << rapid.IntRange(1, 16).Draw(t, "log2-length")}
 		},
 		check: func(p params, nq int) string {
 			// :146/:204 steps 1,2,4,... < Length pair element i with i+step: Walsh-
@@ -495,7 +495,7 @@ func init() {
 		// vectoradd only as a unified device.
 		plainMultiGPU: "the HIP kernel ignores the per-GPU offset the host passes as a hidden argument (vectoradd.go:157, native/vectoradd.cpp)",
 		gen: func(t *rapid.T, nq int, timing bool) params {
-			groups := rapid.IntRange(1, pick(timing, 1024, 256)/nq).Draw(t, "groups-per-gpu")
+			groups := rapid.IntRange(1, pick(timing, 4096, 512)/nq).Draw(t, "groups-per-gpu")
 			n := 64 * groups * nq
 			h := 1 << rapid.IntRange(0, 6).Draw(t, "log2-height")
 			for n%h != 0 {
@@ -521,7 +521,7 @@ func init() {
 	register(&workload{
 		name: "relu", accept: params{"length": 4096}, timing: fullMatrix, gcn3: true,
 		gen: func(t *rapid.T, nq int, timing bool) params {
-			return params{"length": nq * drawSize(t, "length-per-gpu", 1, pick(timing, 32768, 8192)/nq, 64)}
+			return params{"length": nq * drawSize(t, "length-per-gpu", 1, pick(timing, 131072, 16384)/nq, 64)}
 		},
 		check: func(p params, nq int) string {
 			// dnn/layer_benchmarks/relu/main.go:194 numWI = Length/len(gpus), :198 offset numWI*i
@@ -540,7 +540,7 @@ func init() {
 		plainMultiGPU: "SelectGPU panics for more than one GPU (shoc/bfs/bfs.go:94)",
 		gen: func(t *rapid.T, nq int, timing bool) params {
 			return params{
-				"node":   drawSize(t, "node", 2, pick(timing, 3000, 700), 1024),
+				"node":   drawSize(t, "node", 2, pick(timing, 6000, 1024), 1024),
 				"degree": rapid.IntRange(0, 8).Draw(t, "degree"),
 				"depth":  rapid.SampledFrom([]int{0, 0, 0, 1, 2, 3, 5}).Draw(t, "depth"),
 			}
@@ -562,8 +562,8 @@ func init() {
 		name: "stencil2d", accept: params{"row": 64, "col": 64, "iter": 1}, timing: fullMatrix, cdna3: true, gcn3: true,
 		gen: func(t *rapid.T, nq int, timing bool) params {
 			return params{
-				"row":  drawMult(t, "row/16", 16, pick(timing, 128, 64)),
-				"col":  drawMult(t, "col/64", 64, pick(timing, 256, 128)),
+				"row":  drawMult(t, "row/16", 16, pick(timing, 256, 96)),
+				"col":  drawMult(t, "col/64", 64, pick(timing, 512, 192)),
 				"iter": rapid.IntRange(1, 3).Draw(t, "iter"),
 			}
 		},
@@ -592,10 +592,10 @@ func init() {
 		gen: func(t *rapid.T, nq int, timing bool) params {
 			for {
 				p := params{
-					"dim":               drawSize(t, "dim", 1, pick(timing, 600, 256), 128),
+					"dim":               drawSize(t, "dim", 1, pick(timing, 1024, 384), 128),
 					"sparsity-permille": rapid.SampledFrom([]int{5, 10, 10, 50, 100, 300, 1000}).Draw(t, "sparsity"),
 				}
-				if p["dim"]*p["dim"]*p["sparsity-permille"]/1000 >= 1 && p["dim"]*p["dim"]*p["sparsity-permille"]/1000 <= 40000 {
+				if p["dim"]*p["dim"]*p["sparsity-permille"]/1000 >= 1 && p["dim"]*p["dim"]*p["sparsity-permille"]/1000 <= 100000 {
 					return p
 				}
 			}
@@ -619,7 +619,7 @@ func init() {
 		gen: func(t *rapid.T, nq int, timing bool) params {
 			return params{
 				"MB":     1,
-				"bytes":  rapid.IntRange(8192, pick(timing, 1<<20, 160<<10)).Draw(t, "bytes"),
+				"bytes":  rapid.IntRange(8192, pick(timing, 2<<20, 256<<10)).Draw(t, "bytes"),
 				"passes": rapid.IntRange(1, 2).Draw(t, "passes"),
 			}
 		},
@@ -644,7 +644,7 @@ func init() {
 		// rodinia/nw/benchmark.go:155 SelectGPU panics "nw does not support multi-GPU mode"
 		plainMultiGPU: "SelectGPU panics for more than one GPU (rodinia/nw/benchmark.go:155)",
 		gen: func(t *rapid.T, nq int, timing bool) params {
-			return params{"length": drawMult(t, "length/64", 64, 320)}
+			return params{"length": drawMult(t, "length/64", 64, 512)}
 		},
 		check: func(p params, nq int) string {
 			// :108 blockSize = 64 and :246/:292 blockWidth = length/blockSize diagonal
